@@ -216,3 +216,24 @@ def jsonable(x):
     if isinstance(x, (set, frozenset)):
         return sorted(jsonable(v) for v in x)
     return x
+
+
+# ---------------------------------------------------------------- memory layout of argument arrays
+def layout_variant(pos, edges, crossing):
+    """The memory layout of an array is not part of its value: the same lattice handed to koala as C-ordered,
+    Fortran-ordered (koala's own n_ladder builds such edge arrays) or as non-contiguous strided views must
+    behave identically.  Returns fresh arrays in a layout chosen deterministically from the content (so that
+    a failure replays) together with the layout's name."""
+    pos, edges, crossing = np.asarray(pos), np.asarray(edges), np.asarray(crossing)
+    lay = int(digest([pos.tolist(), edges.tolist()]), 16) % 4
+    if lay == 1:
+        return np.asfortranarray(pos.copy()), np.asfortranarray(edges.copy()), np.asfortranarray(crossing.copy()), "F"
+    if lay == 2:
+        def strided(a):
+            if a.ndim != 2:
+                return a.copy()
+            big = np.zeros((a.shape[0], 2 * a.shape[1]), dtype=a.dtype)
+            big[:, ::2] = a
+            return big[:, ::2]
+        return strided(pos), strided(edges), strided(crossing), "strided"
+    return pos.copy(), edges.copy(), crossing.copy(), "C"
